@@ -41,7 +41,10 @@ def run_decoder(wire: bytes, bnd: bytes, chunks: list[int], maxmem=None, maxpart
     from werkzeug.exceptions import RequestEntityTooLarge
     from werkzeug.sansio.multipart import Data, Epilogue, Field, File, MultipartDecoder, NeedData, Preamble
 
-    d = MultipartDecoder(bnd, max_form_memory_size=maxmem, max_parts=maxparts)
+    try:
+        d = MultipartDecoder(bnd, max_form_memory_size=maxmem, max_parts=maxparts)
+    except Exception as ex:  # the code under test may fail already here: a recorded outcome, not a harness failure
+        return {"steps": [{"fed": 0, "buflen": 0, "ev": []}], "err": "exc:" + type(ex).__name__}
     steps = []
     err = ""
     pos = 0
